@@ -183,9 +183,23 @@ def step (line : String) : String :=
     | _ => "bad-op"
   | "RL" :: ops =>
     -- "k" keeps the list value of that moment (values are immutable: later operations cannot reach it)
-    match ops.foldl (fun (acc : Option (RegList × List RegList)) o => acc.bind (fun (rl, kept) =>
-        if o = "k" then some (rl, kept ++ [rl]) else (regOp rl o).map (fun rl' => (rl', kept)))) (some ({}, [])) with
-    | some (rl, kept) => s!"{rl.len} {renderShort rl} {String.intercalate "," (rl.getRegisters.map short)}" ++
+    -- "g" observes the combined view (no effect on a value); "p=<idxs>@<c>" appends the first c of the caller's number
+    -- registers and keeps the others for "q", which appends them
+    match ops.foldl (fun (acc : Option (RegList × List RegList × List Reg)) o => acc.bind (fun (rl, kept, rest) =>
+        if o = "k" then some (rl, kept ++ [rl], rest)
+        else if o = "g" then some (rl, kept, rest)
+        else if o = "q" then some (rl.appendN rest, kept, [])
+        else match o.splitOn "=" with
+          | ["p", spec] =>
+            match spec.splitOn "@" with
+            | [idxs, c] => do
+              let is ← (idxs.splitOn ",").mapM String.toNat?
+              let rs ← is.mapM (fun i => pool[i]?)
+              let c ← c.toNat?
+              pure (rl.appendN (rs.take c), kept, rs.drop c)
+            | _ => none
+          | _ => (regOp rl o).map (fun rl' => (rl', kept, rest)))) (some ({}, [], [])) with
+    | some (rl, kept, _) => s!"{rl.len} {renderShort rl} {String.intercalate "," (rl.getRegisters.map short)}" ++
         String.join (kept.map (fun k => s!" K{k.len} {renderShort k}"))
     | none => "bad-op"
   | [k, idx, outcome] =>
